@@ -7,6 +7,8 @@ import DryocVerif.Proofs.Curve
 import DryocVerif.Properties.C05
 import DryocVerif.Proofs.GenCurve
 import DryocVerif.Proofs.KeyFormsExtra
+import DryocVerif.Proofs.KeyFormsCode
+import DryocVerif.Proofs.Blake2bMain
 import DryocVerif.Proofs.SignVectors
 import DryocVerif.Model.KeyForms
 import DryocVerif.Model.Argon2
@@ -23,6 +25,8 @@ C13 — deterministic key pairs and the Ed25519 → Curve25519 conversion
   converted secret key, *given* that the birational map commutes with scalar multiplication
   (a property of the curve arithmetic, stated as a hypothesis and checked on an instance) —
   the hypothesis is essentially the conclusion, see its docstring;
+* `converted_pair_consistent_code`: the same consistency in the CODE's shape (both sides go through
+  the same Edwards multiple Q = [a mod L]B), with NO homomorphism hypothesis — field algebra only;
 * what IS proved about the public-key conversion: it agrees with libsodium's wherever libsodium
   accepts (`pkToCurve_of_spec`), fails exactly when the key does not decompress
   (`pkToCurve_err_iff`), never panics;
@@ -76,6 +80,19 @@ theorem kxSeedKeypair_spec (seed : Bytes) :
   have h : (Spec.Blake2b.hash 32 [] seed).length ≤ 32 := by
     unfold Spec.Blake2b.hash Spec.Blake2b.hashSP; exact List.length_take_le _ _
   rw [← C05.scalarmultBase_eq_of_le _ h]; rfl
+
+/-- **`crypto_kx_seed_keypair`, the code path of the secret key**: the Rust line is
+`crypto_generichash(&mut sk, seed, None)?` with a 32-byte `sk`; through dryoc's own BLAKE2b model
+(argument validation, `State::init`, `update`, `finalize`, with their `Result`) this call returns
+`Ok` — the `?` never fires — and the 32 bytes are exactly the secret key of `kxSeedKeypair`, whose
+abstract `P.blake2b` has no `Result` to drop.  Hypothesis: the seed is shorter than 2^64 − 128
+bytes (the byte counter of the model does not wrap), true of every slice. -/
+theorem kxSeed_code (seed : Bytes) (h : seed.length + 128 < 2 ^ 64) :
+    Model.Blake2b.generichash 32 seed none = .ok (kxSeedKeypair specPrims seed).2 :=
+  Proofs.Blake2b.generichash_eq_spec 32 [] seed (by omega) (Or.inl rfl) h
+
+/-- non-vacuity witness for `kxSeed_code` -/
+example : ([1, 2, 3] : Bytes).length + 128 < 2 ^ 64 := by decide
 
 /-! ### `crypto_sign_seed_keypair` -/
 
@@ -198,10 +215,85 @@ theorem converted_pair_consistent_sha512 (P : Prims) (seed : Bytes) (hseed : see
         (Model.Sign.seedKeypair Spec.Sha512.sha512 seed).2)) :=
   converted_pair_consistent P _ seed hseed (by rw [Proofs.Curve.sha512_length]; decide) hmap
 
+/-- per-seed form of `converted_pair_consistent`: only the ONE instance of the curve fact that the
+seed at hand needs (`MapCommutes` for the clamped hash of this seed) is assumed — an instance that
+can be checked by evaluation (see the witnesses at the end of the file) -/
+theorem converted_pair_consistent_seed (P : Prims) (H : Bytes → Bytes) (seed : Bytes)
+    (hseed : seed.length = 32) (hmap : MapCommutes P (Model.Sign.clampHash (H seed))) :
+    Model.Sign.pkToCurve (Model.Sign.seedKeypair H seed).1 =
+      .ok (scalarmultBase P (Model.Sign.skToCurve H (Model.Sign.seedKeypair H seed).2)) := by
+  obtain ⟨e, -⟩ := sk_to_curve_of_seedKeypair H seed hseed
+  rw [e, scalarmultBase, Proofs.Curve.clampHash_clamped]
+  exact hmap
+
+/-- non-vacuity witness for `converted_pair_consistent_seed`: a (hypothetical) hash returning zeros,
+for which the instance of `MapCommutes` is the first one evaluated at the end of this file -/
+example : MapCommutes specPrims (Model.Sign.clampHash ((fun _ => zeros 64) (zeros 32))) := by
+  unfold MapCommutes
+  set_option maxRecDepth 1000000 in decide
+
+/-- the Edwards multiple both conversions of a signing key pair go through: Q = [a mod L]·B with
+a = clamp(H(seed)[0..32]) -/
+def signPoint (H : Bytes → Bytes) (seed : Bytes) : Spec.Ed25519.Point :=
+  Spec.Ed25519.scalarMul (signScalar H seed) Spec.Ed25519.B
+
+/-- **Consistency of the converted pair in the code's shape, without any curve hypothesis.**
+In the Rust both conversions go through the SAME Edwards point Q = [a mod L]·B:
+`pk_to_curve25519(pk)` is `decompress(compress Q).to_montgomery()`, and
+`crypto_scalarmult_base(sk_to_curve25519(sk))` is `(TABLE · (clamp(sk') mod L)).to_montgomery()`
+= `Q.to_montgomery()` with `sk'` already clamped (`C05.scalarmultBaseEdwards`).  So
+`pk_to_curve(pk) = scalarmult_base(sk_to_curve(sk))` is field algebra:
+decompress ∘ compress keeps the affine y = Y/Z, and (1 + Y/Z)/(1 − Y/Z) = (Z + Y)/(Z − Y).
+
+Hypotheses, and why: `hdec` — the compressed point decompresses (that Q is on the curve is not
+proved here; without it the Rust returns `Err`); `hZ` — Q's projective `Z` is not `0 mod p`, so that
+`Z⁻¹ = Z^(p−2)` is an inverse (Fermat; the primality of p = 2^255 − 19 is proved by a Pratt
+certificate in `Proofs/FieldPrime.lean`).  For a point with `Z ≡ 0` both sides are meaningless
+(`Y/Z`).  NO `MapCommutes`, no group law.
+NB the right-hand side is the CODE's base-point multiplication (Edwards table), not the model's
+ladder `scalarmultBase`; the two are identified by the unproved `C05.BaseEdwardsOK`. -/
+theorem converted_pair_consistent_code (H : Bytes → Bytes) (seed : Bytes) (hseed : seed.length = 32)
+    (hdec : Spec.Ed25519.decodePointLax (Model.Sign.seedKeypair H seed).1 ≠ none)
+    (hZ : (signPoint H seed).Z % Spec.X25519.p ≠ 0) :
+    Model.Sign.pkToCurve (Model.Sign.seedKeypair H seed).1 =
+      .ok (C05.scalarmultBaseEdwards
+        (Model.Sign.skToCurve H (Model.Sign.seedKeypair H seed).2)) := by
+  obtain ⟨e, -⟩ := sk_to_curve_of_seedKeypair H seed hseed
+  rw [e]
+  unfold C05.scalarmultBaseEdwards
+  rw [Proofs.Curve.clampHash_clamped]
+  exact Proofs.KeyFormsCode.pkToCurve_encode' (signPoint H seed) hdec hZ
+
+/-- the general fact behind it, for any projective point: `pk_to_curve25519 ∘ compress` is dalek's
+`to_montgomery` -/
+theorem pkToCurve_compress (Q : Spec.Ed25519.Point)
+    (hdec : Spec.Ed25519.decodePointLax (Spec.Ed25519.encodePoint Q) ≠ none)
+    (hZ : Q.Z % Spec.X25519.p ≠ 0) :
+    Model.Sign.pkToCurve (Spec.Ed25519.encodePoint Q) =
+      .ok (toLE 32 (Spec.X25519.fmul (Spec.X25519.fadd Q.Z Q.Y)
+        (Spec.X25519.finv (Spec.X25519.fsub Q.Z Q.Y)))) :=
+  Proofs.KeyFormsCode.pkToCurve_encode' Q hdec hZ
+
+/-- the field prime p = 2^255 − 19 is prime (Pratt certificate, checked by kernel evaluation) -/
+theorem field_prime : Nat.Prime Spec.X25519.p := Proofs.FieldPrime.p_prime
+
+/-- non-vacuity witness for `converted_pair_consistent_code`: both hypotheses hold for the RFC 8032
+TEST 1 seed with the real SHA-512 (kernel evaluation) -/
+example :
+    Proofs.SignVectors.tvSeed.length = 32 ∧
+    Spec.Ed25519.decodePointLax (Model.Sign.seedKeypair Spec.Sha512.sha512 Proofs.SignVectors.tvSeed).1 ≠ none ∧
+    (signPoint Spec.Sha512.sha512 Proofs.SignVectors.tvSeed).Z % Spec.X25519.p ≠ 0 := by
+  decide +kernel
+
 /-! ### `crypto_sign_ed25519_pk_to_curve25519`: what is provable without the group law -/
 
 /-- Wherever libsodium's `crypto_sign_ed25519_pk_to_curve25519` accepts a public key, dryoc's
-returns `Ok` with the same 32 bytes.  (libsodium's lenient decompression yields Z = 1 and a
+returns `Ok` with the same 32 bytes.  APPLICABILITY: the hypothesis (libsodium accepts `pk`, which
+includes the `[L]A = O` main-subgroup test) is shown to hold for an HONEST key only on one
+instance, the RFC 8032 TEST 1 public key (witness below, by kernel evaluation); that it holds for
+every key produced by `crypto_sign_seed_keypair` is a curve fact (the key is on the curve and in
+the prime-order subgroup) that is not proved here — other honest keys have to be checked one by
+one the same way.  (libsodium's lenient decompression yields Z = 1 and a
 reduced y, so this is field algebra: `y·Z⁻¹ = y`, and both sides compute (1 + y)/(1 − y) mod p.) -/
 theorem pkToCurve_of_spec (pk out : Bytes) (h : Spec.Ed25519.pkToCurve pk = some out) :
     Model.Sign.pkToCurve pk = .ok out :=
